@@ -71,7 +71,9 @@ macro_rules! ser_coll { ($($n:ident),* $(,)?) => { verus!{ $(
     }
 )* } } }
 // generic building blocks of "map with optional keys" encoders, in APPLY form (tokens so far -> tokens after the entry)
+#[verifier::opaque]
 pub open spec fn cnt_o<T>(o: Option<T>) -> int { if o is Some { 1 } else { 0 } }
+#[verifier::opaque]
 pub open spec fn cnt_ne<T: NoneOrEmpty>(o: Option<T>) -> int { if o is Some && !o->Some_0.empty() { 1 } else { 0 } }
 pub open spec fn ap_req<T: Ser>(s: Seq<Tok>, k: u64, x: T) -> Seq<Tok> { s.push(Tok::UInt(k)) + x.enc() }
 pub open spec fn ap_o<T: Ser>(s: Seq<Tok>, k: u64, o: Option<T>) -> Seq<Tok> { match o { Some(x) => s.push(Tok::UInt(k)) + x.enc(), None => s } }
@@ -85,3 +87,13 @@ pub proof fn lemma_shift(s: Seq<Tok>, x: Seq<Tok>, y: Seq<Tok>, fx: Seq<Tok>, fy
     requires x == s + y, fx == x + d, fy == y + d
     ensures fx == s + fy
 { assert(fx =~= s + fy); }
+
+// cbor_event's own `Serialize for u32 / u64`: one unsigned integer token
+impl Ser for u32 {
+    open spec fn enc(&self) -> Seq<Tok> { seq![Tok::UInt(*self as u64)] }
+    #[verifier::external_body] fn serialize(&self, serializer: &mut Serializer) -> (r: Result<(), CborError>) { unimplemented!() }
+}
+impl Ser for u64 {
+    open spec fn enc(&self) -> Seq<Tok> { seq![Tok::UInt(*self)] }
+    #[verifier::external_body] fn serialize(&self, serializer: &mut Serializer) -> (r: Result<(), CborError>) { unimplemented!() }
+}
